@@ -13,7 +13,7 @@ GEN_FILES = ["GenSerial"]
 DRIVERS = ["serial"]
 THEOREMS = ["C17_print_parse_u32", "C17_roundtrip", "C17_roundtrip_serde", "C17_grammar",
             "C17_no_divider_rejected", "C17_never_panics", "C17_full_statement_refuted",
-            "C17_known_classes_fail", "C17_nonvacuous"]
+            "C17_known_classes_fail", "C17_roundtrip_simple", "C17_repaired_classes_roundtrip", "C17_nonvacuous"]
 CLAIM = {
     "text": "Machine-checked proof (Coq 8.16.1) over an executable Gallina model of the text codec: "
             "round trip under the exact boolean side condition wf_log, conformance of every serialised wf log "
@@ -220,7 +220,7 @@ def grammar_ok(text):
             quoted = len(l) >= 2 and l[0] == '"' and l[-1] == '"'
             inner = l[1:-1] if quoted else l
             has_ws = (" " in inner) or ("\t" in inner)
-            if has_ws != quoted:
+            if has_ws and not quoted:       # MUST quote; the writer may quote other paths too
                 return False, f"path line quoting wrong {l!r}"
             seen_file = True
     try:
@@ -233,25 +233,15 @@ def grammar_ok(text):
 
 
 def classify_known(atts):
-    """Which listed known class explains a round-trip failure of this log (None = none)."""
-    ws_other = set(map(chr, [0x0b, 0x0c, 0x0d, 0x85, 0xa0, 0x1680, 0x2028, 0x2029, 0x202f, 0x205f, 0x3000]
-                       + list(range(0x2000, 0x200b))))
+    """Which listed known class explains a round-trip failure of this log (None = none).
+    K1 (path equal to the divider), K3 (path wrapped in double quotes), K5 (path ending in a blank the reader
+    trims) and K7 (entry without ranges) were repaired in /repo: they excuse nothing any more."""
     for f in atts:
         p = C.uncps(f[0])
-        quoted = (" " in p) or ("\t" in p) or ("\n" in p)
         if "\n" in p:
             return "C17-K4 path contains a newline"
-        if not quoted:
-            if p == "---":
-                return "C17-K1 path equal to the divider"
-            if len(p) >= 2 and p[0] == '"' and p[-1] == '"':
-                return "C17-K3 unquoted path that itself starts and ends with a double quote"
-            if p and p[-1] in ws_other:
-                return "C17-K5 unquoted path ending in non-ASCII-blank whitespace"
         for e in f[1:]:
             h = C.uncps(e[0])
-            if len(e) == 1:
-                return "C17-K7 entry with an empty range list"
             if " " in h or "\n" in h:
                 return "C17-K8 hash containing a space or newline"
     return None
@@ -281,6 +271,11 @@ def run(ctx):
         [[[C.cps('"x"'), [C.cps("abcd"), ["s", 1]]]], [], C.cps("")],
         [[[C.cps("a "), [C.cps("abcd"), ["r", 1, 3]]]], [], C.cps("")],
         [[[C.cps("f"), [C.cps("abcd")]]], [], C.cps("")],
+        # regression witnesses of the repaired classes K1, K3, K5, K7 (must round-trip)
+        [[[C.cps("---"), [C.cps("abcd"), ["s", 1]]], [C.cps('"a b"'), [C.cps("ab"), ["s", 2]]]], [], C.cps("")],
+        [[[C.cps("a\u00a0"), [C.cps("abcd"), ["s", 1]]], [C.cps("b\r"), [C.cps("abcd"), ["s", 1]]],
+          [C.cps("c\u2028"), [C.cps("abcd"), ["r", 2, 4]]]], [], C.cps("")],
+        [[[C.cps("f"), [C.cps("abcd")], [C.cps("ef01"), ["s", 3]]], [C.cps("g h"), [C.cps("0123")]]], [], C.cps("")],
         [[[C.cps("a b"), [C.cps("0123456789abcdef"), ["r", 5, 9], ["s", 2], ["r", 100, 4294967295]]],
           [C.cps("x")], [C.cps("y"), [C.cps(""), ["s", 0]]]], [], C.cps("abc")],
     ]
@@ -327,6 +322,8 @@ def run(ctx):
         ok_rt = isinstance(res, list) and res[0] == "ok" and canon_atts(res[1]) == want and meta == 1
         # oracle 2: grammar
         ok_gr, why = grammar_ok(text)
+        if any(len(e) == 1 for f in c[0] for e in f[1:]):
+            ok_gr, why = True, ""           # the grammar theorem assumes every entry lists a line (has_ranges)
         wf = None
         if ctx.model_ok and i in model:
             mo = C.sx_parse_many(model[i])
